@@ -38,7 +38,10 @@ RULE = (
     'cases = seeded random formulas: (mc) C01-grammar integrand with 1-4 draw variables of different declared types '
     '(native + deterministic user-defined), R in {1,2,7,50} (thorough: also 3,4,16,100), 1-12 rows, MonteCarlo at '
     'top / nested / twice; (int) normal density x 1-3 smooth factors, alone / nested / two integrals; (der) Derive of '
-    'a generated smooth formula w.r.t. a free or fixed parameter or a column; plus directed cases. A case is '
+    'a generated smooth formula w.r.t. a free or fixed parameter or a column; (hist) sequences of generator '
+    'registrations on one Database interleaved with evaluations; (reuse) one Database reused by several seeded '
+    'objects / evaluations vs a fresh one; (dict) seeded BIOGEME objects built from dictionaries of formulas (4 layouts x '
+    '5 classes of draw types), constructed 4 times incl. a forked child; plus directed cases. A case is '
     'non-trivial when the reference evaluator, fed with the series the generators really produced, accepts it as '
     'regular and well-conditioned (float64 vs 80-bit 1e-12, no branch within 1e-6 of a tie) and the real code was '
     'compared with it; distinct = hash of (kind, AST, shared sub-trees, data, parameters, draw variables, R)'
@@ -65,6 +68,7 @@ N_INT = {'quick': 220, 'thorough': 2000}
 N_DER = {'quick': 300, 'thorough': 3000}
 N_HIST = {'quick': 70, 'thorough': 700}
 N_REUSE = {'quick': 60, 'thorough': 600}
+N_DICT = {'quick': 80, 'thorough': 800}
 
 INT_RTOL, INT_ATOL = 1e-9, 1e-11
 
@@ -167,6 +171,10 @@ def cases(seed, tier):
     for k in range(4):
         out.append({'kind': 'reuse', 'seed': 4242, 'i': k, 'tier': 'quick', 'directed': 'same_request'})
     out.append({'kind': 'stale_function', 'seed': 0, 'i': 0, 'tier': 'quick'})
+    for i in range(N_DICT[tier]):
+        out.append({'kind': 'dict', 'seed': seed, 'i': i, 'tier': tier})
+    for k in range(16):
+        out.append({'kind': 'dict', 'seed': 4242, 'i': k, 'tier': 'quick', 'directed': 'layout_x_types'})
     out.append({'kind': 'closed', 'seed': 0, 'i': 0, 'tier': 'quick'})
     out.append({'kind': 'reserved', 'seed': 0, 'i': 0, 'tier': 'quick'})
     out.append({'kind': 'sametype', 'seed': 0, 'i': 0, 'tier': 'quick'})
@@ -1735,6 +1743,255 @@ def _run_stale_function(case, rec):
 
 
 # ---------------------------------------------------------------------------
+# seeded BIOGEME objects built from dictionaries of formulas
+
+
+_DICT_LAYOUTS = ['sim_only', 'loglike_plain', 'loglike_draws', 'weight']
+_DICT_TYPES = ['random', 'mlhs_anti', 'halton', 'user_np', 'mixed']
+
+
+def _dict_types(rng, R, cls):
+    even = R % 2 == 0
+    pools = {
+        'random': ['UNIFORM', 'NORMAL', 'UNIFORMSYM'],
+        'mlhs_anti': ['UNIFORM_MLHS', 'NORMAL_MLHS', 'UNIFORMSYM_MLHS'] + (
+            ['UNIFORM_ANTI', 'NORMAL_ANTI', 'UNIFORMSYM_ANTI', 'UNIFORM_MLHS_ANTI', 'NORMAL_MLHS_ANTI', 'UNIFORMSYM_MLHS_ANTI'] if even else []),
+        'halton': ['UNIFORM_HALTON2', 'UNIFORM_HALTON3', 'NORMAL_HALTON2', 'NORMAL_HALTON5', 'UNIFORMSYM_HALTON3', 'UNIFORMSYM_HALTON5'],
+        'user_np': ['EXPO_np', 'EXPO_np', 'DET_A', 'zz_user'],
+    }
+    pools['mixed'] = pools['random'] + pools['mlhs_anti'] + pools['halton'] + pools['user_np']
+    return pools[cls]
+
+
+def _dict_formula(rng, pool, names, must=None):
+    """MonteCarlo formula over 1-2 draw variables with the given names"""
+    dv = []
+    for k, n in enumerate(names):
+        t = must if (must and k == 0) else rng.choice(pool)
+        dv.append([n, t])
+    u = ['mul', ['beta', 'B_time'], ['var', 'x_time']]
+    for j, (n, t) in enumerate(dv):
+        d = ['draws', n, t]
+        term = [['mul', ['beta', 'mu'], d], ['mul', ['var', 'Cost'], ['sin', d]]][j % 2]
+        u = [rng.choice(['add', 'sub']), u, term]
+    ast = ['mc', ['exp', ['mul', ['num', 0.3], u]]] if rng.random() < 0.5 else \
+        ['log', ['mc', ['div', ['num', 1.0], ['add', ['num', 1.0], ['exp', ['neg', u]]]]]]
+    return ast, dv
+
+
+def _run_dict(case, rec):
+    """'with a non-zero seed the results are reproducible' for BIOGEME objects built from a DICTIONARY of formulas:
+    {only simulation formulas with draws}, {log_like without draws + others with draws}, {log_like with draws +
+    others with draws}, {weight formula present}; draw types: pseudo-random native, MLHS / antithetic, Halton
+    (deterministic: control), user generators consuming numpy's stream, mixed. Same seed + same formulas + same
+    data -> identical draw tables at the engine boundary and identical simulate / likelihood values: two
+    constructions in this process (numpy's global state disturbed differently before each), a third one after
+    np.random.seed(None), a fourth in a forked child that re-seeds from OS entropy (what a fresh process starts
+    from). Where in the seeded stream the table sits is not promised and not judged. Every construction's values
+    must also be the means over the series its generators produced (own-series oracle)."""
+    import pandas as pd
+    import biogeme.database as bdb
+    from ..gen import build, c10_gen as gen
+    from ..oracle import evalast
+    from ..monitors import engine_proxy as ep
+    from ..worker import run_forked
+
+    directed = case.get('directed')
+    rng = random.Random(f'c10/dict/{case["seed"]}/{case["i"]}/{directed}')
+    if directed:
+        layout = _DICT_LAYOUTS[case['i'] % 4]
+        cls = ['random', 'mlhs_anti', 'user_np', 'halton'][(case['i'] // 4) % 4]
+    else:
+        layout = rng.choice(_DICT_LAYOUTS)
+        cls = rng.choice(_DICT_TYPES)
+    N = rng.randint(1, 8)
+    R = rng.choice([2, 4, 10, 50] if cls == 'mlhs_anti' and rng.random() < 0.7 else [1, 2, 3, 7, 10, 50])
+    pool = _dict_types(rng, R, cls)
+    must = 'EXPO_np' if cls == 'user_np' else None
+    data = {'x_time': [round(rng.uniform(-2, 2), 3) for _ in range(N)],
+            'Cost': [round(rng.uniform(0.2, 3), 3) for _ in range(N)]}
+    betas = {'mu': [round(rng.uniform(0.2, 0.9), 3), 0], 'B_time': [round(rng.uniform(-1.2, -0.2), 3), 0]}
+    names = rng.sample(gen.DRAW_NAMES, 5)
+    plain = ['sub', ['mul', ['beta', 'B_time'], ['var', 'x_time']], ['exp', ['mul', ['beta', 'mu'], ['var', 'Cost']]]]
+    f1, dv1 = _dict_formula(rng, pool, names[:rng.randint(1, 2)], must)
+    f2, dv2 = _dict_formula(rng, pool, names[2:2 + rng.randint(1, 2)])
+    f3, dv3 = _dict_formula(rng, pool, [names[4]] + ([dv1[0][0]] if rng.random() < 0.5 else []))
+    if len(dv3) == 2:
+        dv3[1][1] = dv1[0][1]  # the same variable as in f1: same declared type
+        f3 = _subst_type(f3, dv3[1][0], dv3[1][1])
+    forms = {}
+    if layout == 'sim_only':
+        forms = {'sim_b': f2, 'A_sim': f1, 'plain': plain}
+    elif layout == 'loglike_plain':
+        forms = {'other': f1, 'log_like': plain, 'Z_other': f2}
+    elif layout == 'loglike_draws':
+        forms = {'log_like': f1, 'other': f2, 'third': f3}
+    else:
+        forms = {'weight': ['var', 'Cost'], 'log_like': f1 if rng.random() < 0.5 else plain, 'other': f2}
+    types = {}
+    for a in forms.values():
+        for n, t in _draw_leaves(a):
+            types[n] = t
+    seed = rng.choice([1, 17, 2024, 123456, 2**31 - 1])
+    threads = rng.choice([1, 2, 3])
+    x = {'B_time': round(betas['B_time'][0] + rng.uniform(-0.1, 0.1), 4), 'mu': round(betas['mu'][0] + rng.uniform(-0.1, 0.1), 4)}
+    spec_w = {'layout': layout, 'type_class': cls, 'formulas': forms, 'draw_variables': types, 'R': R, 'rows': N, 'seed': seed,
+              'data': data, 'betas': betas, 'x': x}
+    cx = _Ctx(rec, spec_w)
+    has_ll = 'log_like' in forms
+    counter = {'n': 0}
+
+    def construct(sd, disturb):
+        """one construction + simulate (+ likelihood); returns dict with table / values, or None after a violation"""
+        counter['n'] += 1
+        if disturb == 'entropy':
+            np.random.seed(None)
+        else:
+            np.random.seed(disturb)
+            np.random.uniform(size=1 + disturb % 53)
+        objs = {}
+        for k, a in forms.items():
+            objs[k] = build.build({'ast': a, 'shared': [], 'data': data, 'betas': betas})[0]
+        db = bdb.Database('dict', pd.DataFrame(data))
+        _register_user(db, with_numpy_based=True)
+        PROD.clear(); GD_CALLS.clear(); ep.reset()
+        bg = _mk_biogeme(objs, db, R=R, seed=sd, threads=threads)
+        free = list(bg.free_beta_names)
+        sim = bg.simulate({n: x[n] for n in free})
+        ll = float(bg.calculate_likelihood([x[n] for n in free], scaled=False)) if has_ll else None
+        calls = list(GD_CALLS)
+        ho = _handover('biogeme')
+        table = ho['table']
+        call = _table_call(calls, table)
+        if call is None:
+            # no log-likelihood signature to attribute columns with: the sorted-name convention is the only handle
+            if table is not None and getattr(table, 'ndim', 0) == 3 and table.shape[2] == len(types):
+                ho2 = dict(ho)
+                call = _resolve_call(cx, calls, ho2, types) if ho['signature'] is not None else None
+        if call is None:
+            cx.viol('engine-given-other-table-than-generated', f'formula dictionary ({layout}): no attributable draw table at the engine boundary')
+            return None
+        _check_generate_draws_calls(cx, calls, types, N, R)
+        ser = _series_from(call, table, types, N, R)
+        if ser is None:
+            if not rec.viol:
+                cx.viol('generate_draws-no-series-for-variable', f'formula dictionary ({layout}): no production of the declared generator for some variable')
+            return None
+        cols = {}
+        ok_all = True
+        for k, a in forms.items():
+            j = evalast.judge(a, data, x, [], draws=ser)
+            if not j['ok']:
+                ok_all = False
+                continue
+            cols[k] = j['value']
+            rec.ev()
+            rec.c('dict_simulate_columns_value_checked')
+            if not close(sim[k].to_numpy(), j['value'], 1e-9, 1e-11):
+                cx.viol('simulate-differs-from-montecarlo-mean',
+                        f'formula dictionary ({layout}), formula "{k}": simulate={sim[k].tolist()} reference={j["value"].tolist()}')
+        if has_ll and 'log_like' in cols:
+            w = cols.get('weight') if 'weight' in forms else np.ones(N)
+            if w is not None:
+                rec.ev()
+                rec.c('dict_likelihood_value_checked')
+                tgt = float((w * cols['log_like']).sum())
+                if not close(ll, tgt, 1e-9, 1e-11 * max(1, N)):
+                    cx.viol('likelihood-differs-from-weighted-sum-of-montecarlo-means',
+                            f'formula dictionary ({layout}): calculate_likelihood={ll} reference={tgt}')
+        return {'table': np.array(table, copy=True), 'sim': {k: sim[k].to_numpy().copy() for k in forms}, 'll': ll, 'ok': ok_all}
+
+    def child(_):
+        import os as _os
+        r = construct(seed, 'entropy')
+        if r is None:
+            return {'failed': True, 'viol': rec.viol[-3:]}
+        return {'table': r['table'].tolist(), 'sim': {k: v.tolist() for k, v in r['sim'].items()}, 'll': r['ll'], 'pid': _os.getpid()}
+
+    try:
+        a = construct(seed, 1000 + case['i'])
+        if a is None or rec.viol:
+            return
+        b = construct(seed, 52000 + 7 * case['i'])
+        if b is None or rec.viol:
+            return
+        c = construct(seed, 'entropy')
+        if c is None or rec.viol:
+            return
+        o = construct(seed + 1, 1000 + case['i'])  # other seed, same disturbance as the first (informational)
+        z = construct(0, 3000 + case['i'])
+    except BaseException as e:
+        cx.viol(f'formula-dictionary-raises-{type(e).__name__}', f'{layout}/{cls}: {str(e)[:400]}')
+        return
+    rec.ev()
+    rec.key(['dict', layout, cls, forms, data, betas, R, seed])
+    rec.c('dict_groups_compared')
+    rec.c('dict_layout_' + layout)
+    rec.c('dict_types_' + cls)
+    if directed:
+        rec.c('dict_directed_' + directed)
+    uses_numpy_stream = any(t in gen.RANDOM_NATIVE or t == 'EXPO_np' for t in types.values())
+    if uses_numpy_stream and o is not None and not np.array_equal(o['table'], a['table']):
+        rec.c('dict_other_seed_other_draws')
+    if uses_numpy_stream and z is not None and not np.array_equal(z['table'], a['table']):
+        rec.c('dict_seed_zero_other_draws')
+
+    def compare(lab, r, table, sim, ll):
+        if np.asarray(table).shape != a['table'].shape or not np.array_equal(np.asarray(table, dtype=float), a['table']):
+            cx.viol('seed-formula-dictionary-same-seed-different-draws',
+                    f'layout {layout}, types {sorted(set(types.values()))}, seed={seed}, R={R}: the {lab} construction handed the engine other '
+                    f'draws than the first one')
+            return
+        for k in forms:
+            if not close(np.asarray(sim[k], dtype=float), a['sim'][k], 1e-13, 0):
+                cx.viol('seed-formula-dictionary-same-seed-different-results',
+                        f'layout {layout}, formula "{k}", seed={seed}: first {a["sim"][k].tolist()}, {lab} {np.asarray(sim[k]).tolist()}')
+                return
+        if has_ll and not close(ll, a['ll'], 1e-13, 0):
+            cx.viol('seed-formula-dictionary-same-seed-different-results', f'layout {layout}: likelihood first {a["ll"]!r}, {lab} {ll!r}')
+
+    compare('second', b, b['table'], b['sim'], b['ll'])
+    if not rec.viol:
+        compare('third (numpy re-seeded from OS entropy before)', c, c['table'], c['sim'], c['ll'])
+    if not rec.viol:
+        res = run_forked(child, None, 120)
+        if res.get('failed') or 'table' not in res:
+            rec.c('dict_fresh_process_not_completed')
+            if res.get('viol'):
+                for v in res['viol']:
+                    rec.violation(v['mech'], '(forked child) ' + v['msg'], v.get('witness'))
+        else:
+            rec.ev()
+            rec.c('dict_fresh_process_compared')
+            compare('forked-child (fresh entropy)', res, res['table'], res['sim'], res['ll'])
+    rec.sample({'kind': 'formula dictionary', 'layout': layout, 'type_class': cls, 'formulas': forms, 'R': R, 'rows': N,
+                'seed': seed, 'simulate_first': {k: v.tolist() for k, v in a['sim'].items()}, 'likelihood_first': a['ll']})
+
+
+def _draw_leaves(ast):
+    out = []
+
+    def walk(n):
+        if isinstance(n, list):
+            if n and n[0] == 'draws':
+                out.append((n[1], n[2]))
+                return
+            for y in n:
+                walk(y)
+
+    walk(ast)
+    return out
+
+
+def _subst_type(ast, name, typ):
+    if isinstance(ast, list):
+        if ast and ast[0] == 'draws' and ast[1] == name:
+            return ['draws', name, typ]
+        return [_subst_type(y, name, typ) for y in ast]
+    return ast
+
+
+# ---------------------------------------------------------------------------
 
 
 def run_case(case):
@@ -1743,7 +2000,7 @@ def run_case(case):
     {
         'mc': _run_mc, 'int': _run_int, 'der': _run_der, 'seeds': _run_seeds, 'closed': _run_closed,
         'reserved': _run_reserved, 'sametype': _run_sametype, 'derive_linutil': _run_derive_linutil,
-        'hist': _run_hist, 'reuse': _run_reuse, 'stale_function': _run_stale_function,
+        'hist': _run_hist, 'dict': _run_dict, 'reuse': _run_reuse, 'stale_function': _run_stale_function,
     }[kind](case, rec)
     return rec.out()
 
@@ -1787,7 +2044,11 @@ def finalize(cov, tier):
             'hist_stale_type_evaluations', 'hist_directed_reregister', 'reuse_groups_compared',
             'reuse_level_simulate', 'reuse_level_likelihood', 'reuse_level_value', 'reuse_level_function',
             'reuse_unseeded_evaluation_first', 'reuse_other_model_in_between', 'reuse_evaluations_value_checked',
-            'reuse_first_object_reevaluated', 'reuse_directed_same_request', 'stale_function_checked']
+            'reuse_first_object_reevaluated', 'reuse_directed_same_request', 'stale_function_checked',
+            'dict_groups_compared', 'dict_layout_sim_only', 'dict_layout_loglike_plain', 'dict_layout_loglike_draws',
+            'dict_layout_weight', 'dict_types_random', 'dict_types_mlhs_anti', 'dict_types_halton', 'dict_types_user_np',
+            'dict_types_mixed', 'dict_fresh_process_compared', 'dict_simulate_columns_value_checked',
+            'dict_likelihood_value_checked', 'dict_other_seed_other_draws', 'dict_directed_layout_x_types']
     for k in need:
         if cov.get(k, 0) == 0:
             out.append(f'monitor never evaluated: {k}')
